@@ -6,9 +6,10 @@
 # Set MUT_TESTS=1 to also run the repository's own test suite on the mutant (must stay green to be "realistic").
 set -u
 HERE=$(cd "$(dirname "$0")/.." && pwd)
-WT=/tmp/bwmut/wt
-TG=/tmp/bwmut/target
-mkdir -p /tmp/bwmut
+B=${BWMUT:-/tmp/bwmut}
+WT=$B/wt
+TG=$B/target
+mkdir -p $B
 if [ ! -d "$WT" ]; then git -C /repo worktree add --detach "$WT" HEAD >/dev/null 2>&1 || exit 2; fi
 git -C "$WT" checkout -q -- . && git -C "$WT" clean -fdq && git -C "$WT" checkout -q --detach "$(git -C /repo rev-parse HEAD)" || { echo "cannot reset scratch worktree"; exit 2; }
 if [ "$1" = "--patch" ]; then
@@ -18,22 +19,22 @@ else
   before=$(md5sum "$WT/$file"); perl -0pi -e "$expr" "$WT/$file"; after=$(md5sum "$WT/$file")
   [ "$before" = "$after" ] && { echo "MUTANT $name: substitution did not change $file"; exit 2; }
 fi
-if ! (cd "$WT" && CARGO_NET_OFFLINE=true cargo build --offline --quiet --bin blockwatch --target-dir "$TG") >/tmp/bwmut/build.log 2>&1; then
-  echo "MUTANT $name: does not compile"; tail -5 /tmp/bwmut/build.log; exit 2
+if ! (cd "$WT" && CARGO_NET_OFFLINE=true cargo build --offline --quiet --bin blockwatch --target-dir "$TG") >$B/build.log 2>&1; then
+  echo "MUTANT $name: does not compile"; tail -5 $B/build.log; exit 2
 fi
 if [ "${MUT_TESTS:-0}" = 1 ]; then
   mkdir -p "$WT/.hg"   # the integration tests look for a .git/.hg *directory*; a worktree has a .git file
-  if (cd "$WT" && CARGO_NET_OFFLINE=true cargo test --offline --quiet --workspace --target-dir "$TG") >/tmp/bwmut/test.log 2>&1; then echo "MUTANT $name: repo tests PASS (realistic)"; else echo "MUTANT $name: repo tests FAIL (killed by the suite)"; grep -E "^test .* FAILED|failed" /tmp/bwmut/test.log | head -5; fi
+  if (cd "$WT" && CARGO_NET_OFFLINE=true cargo test --offline --quiet --workspace --target-dir "$TG") >$B/test.log 2>&1; then echo "MUTANT $name: repo tests PASS (realistic)"; else echo "MUTANT $name: repo tests FAIL (killed by the suite)"; grep -E "^test .* FAILED|failed" $B/test.log | head -5; fi
 fi
-rsync -a --delete "$HERE/known_findings.txt" /tmp/bwmut/verif/ 2>/dev/null; for d in regress known; do [ -d "$HERE/$d" ] && rsync -a --delete "$HERE/$d" /tmp/bwmut/verif/; done
+rsync -a --delete "$HERE/known_findings.txt" $B/verif/ 2>/dev/null; for d in regress known; do [ -d "$HERE/$d" ] && rsync -a --delete "$HERE/$d" $B/verif/; done
 rmdir "$WT/.hg" 2>/dev/null
 if [ -n "${MUT_DEMO:-}" ]; then
-  sh "$MUT_DEMO" "$HERE/target/repo/debug/blockwatch" >/tmp/bwmut/demo_orig.log 2>&1; d0=$?
-  sh "$MUT_DEMO" "$TG/debug/blockwatch" >/tmp/bwmut/demo_mut.log 2>&1; d1=$?
+  sh "$MUT_DEMO" "$HERE/target/repo/debug/blockwatch" >$B/demo_orig.log 2>&1; d0=$?
+  sh "$MUT_DEMO" "$TG/debug/blockwatch" >$B/demo_mut.log 2>&1; d1=$?
   echo "MUTANT $name: demo with the unchanged binary exit=$d0, with the changed binary exit=$d1"
 fi
 for id in "$@"; do
-  out=$(BWV_VERIF_DIR=/tmp/bwmut/verif BWV_BIN="$TG/debug/blockwatch" BWV_SCRATCH=/dev/shm/bwv-mut "$HERE/target/debug/bwv" "$id" quick 2>&1)
+  out=$(BWV_VERIF_DIR=$B/verif BWV_BIN="$TG/debug/blockwatch" BWV_SCRATCH=/dev/shm/bwv-mut-$(basename $B) "$HERE/target/debug/bwv" "$id" quick 2>&1)
   code=$?
   echo "MUTANT $name: $id exit=$code $(echo "$out" | grep -c '^VIOLATION') violation line(s); $(echo "$out" | tail -1)"
   [ "${MUT_VERBOSE:-0}" = 1 ] && echo "$out" | grep -A6 -- '--- violation' | head -30
